@@ -1,6 +1,259 @@
-(* C08 — placeholder first theorem; replaced by the full list below as proofs land *)
-From Coq Require Import List NArith Bool Lia.
-From Tink Require Import Bytes Kwp.
-Theorem C08_wrapping_size_first : wrappingSize 16 = 24%nat.
-Proof. reflexivity. Qed.
-Print Assumptions C08_wrapping_size_first.
+(* C08 — Deterministic AEAD (AES-SIV) and AES-KWP follow their RFCs and reject
+   forgeries.  Statements only; proofs live in proofs/SivProofs.v and
+   proofs/KwpProofs.v (and proofs/CmacProofs.v for CMAC = RFC 4493).
+
+   AES is never an axiom: it is the function variable AES (key -> block ->
+   block) resp. E / D (block encryption / decryption under the wrapping key),
+   and every theorem lists what it needs of it as premises:
+     AES_len : a 16-byte block is mapped to a 16-byte block,
+     AES_wf  : outputs are bytes (< 256),
+     DE / ED : decryption and encryption under one key are mutually inverse.
+   At run time these functions are answered by crypto/aes (stdlib oracle). *)
+From Coq Require Import List NArith Bool Arith Lia.
+From Tink Require Import Bytes Cmac CmacProofs Siv SivProofs Kwp KwpProofs.
+Import ListNotations.
+Open Scope N_scope.
+
+(* ===================== AES-SIV ===================== *)
+
+(* The streaming XOREndAndCompute of internal/mac/aescmac (partial XOR of the
+   block that straddles len-16) is CMAC of (data xorend last), for every
+   length >= 16 and any block function. *)
+Theorem C08_xorend_cmac :
+  forall (E : bytes -> bytes) (data last : bytes),
+    (16 <= length data)%nat -> length last = 16%nat ->
+    xorend_impl E data last = Some (cmac_impl E (xorend data last)).
+Proof. exact xorend_impl_correct. Qed.
+Print Assumptions C08_xorend_cmac.
+
+(* s2v as coded (both branches) is RFC 5297 S2V over RFC 4493 CMAC, all lengths. *)
+Theorem C08_s2v_is_rfc5297 :
+  forall (AES : bytes -> bytes -> bytes),
+    (forall k b, length b = 16%nat -> length (AES k b) = 16%nat) ->
+    (forall k b, wfb (AES k b)) ->
+    forall k1 msg ad,
+      s2v_impl AES k1 msg ad = Ok (s2v_rfc5297 (cmac_spec (AES k1)) [ad] msg).
+Proof. exact s2v_impl_rfc_spec. Qed.
+Print Assumptions C08_s2v_is_rfc5297.
+
+(* The ciphertext is output-prefix || RFC 5297 SIV-encrypt(K1 = key[:32],
+   K2 = key[32:], [ad], plaintext), for all 64-byte keys, variants, lengths. *)
+Theorem C08_siv_ciphertext_is_prefix_rfc5297 :
+  forall (AES : bytes -> bytes -> bytes),
+    (forall k b, length b = 16%nat -> length (AES k b) = 16%nat) ->
+    (forall k b, wfb (AES k b)) ->
+    forall v id key pt ad, length key = 64%nat ->
+      daead_encrypt AES v id key pt ad =
+      Ok (output_prefix v id ++
+          siv_encrypt_rfc5297 (cmac_spec (AES (firstn 32 key))) (AES (skipn 32 key)) [ad] pt).
+Proof. exact daead_encrypt_rfc. Qed.
+Print Assumptions C08_siv_ciphertext_is_prefix_rfc5297.
+
+(* Encryption is a total function of (key, plaintext, associated data) — equal
+   inputs give equal ciphertexts by construction — of length prefix+16+|pt|;
+   any other key size is refused. *)
+Theorem C08_siv_encrypt_total_function :
+  forall (AES : bytes -> bytes -> bytes),
+    (forall k b, length b = 16%nat -> length (AES k b) = 16%nat) ->
+    (forall k b, wfb (AES k b)) ->
+    forall v id key pt ad,
+      (length key = 64%nat -> exists c, daead_encrypt AES v id key pt ad = Ok c
+          /\ length c = (length (output_prefix v id) + 16 + length pt)%nat) /\
+      (length key <> 64%nat -> daead_encrypt AES v id key pt ad = Err).
+Proof. exact daead_encrypt_total. Qed.
+Print Assumptions C08_siv_encrypt_total_function.
+
+Theorem C08_siv_decrypt_inverts_encrypt :
+  forall (AES : bytes -> bytes -> bytes),
+    (forall k b, length b = 16%nat -> length (AES k b) = 16%nat) ->
+    (forall k b, wfb (AES k b)) ->
+    forall v id key pt ad, length key = 64%nat ->
+      exists c, daead_encrypt AES v id key pt ad = Ok c /\ daead_decrypt AES v id key c ad = Ok pt.
+Proof. exact daead_roundtrip. Qed.
+Print Assumptions C08_siv_decrypt_inverts_encrypt.
+
+(* Exact acceptance: (c, ad) decrypts to p iff c is the encryption of p under ad. *)
+Theorem C08_siv_exact_acceptance :
+  forall (AES : bytes -> bytes -> bytes),
+    (forall k b, length b = 16%nat -> length (AES k b) = 16%nat) ->
+    (forall k b, wfb (AES k b)) ->
+    forall v id key c ad p, length key = 64%nat ->
+      (daead_decrypt AES v id key c ad = Ok p <-> daead_encrypt AES v id key p ad = Ok c).
+Proof. exact daead_exact_acceptance. Qed.
+Print Assumptions C08_siv_exact_acceptance.
+
+(* ... hence every (ciphertext, associated data) that is not an encryption is rejected. *)
+Theorem C08_siv_rejects_everything_else :
+  forall (AES : bytes -> bytes -> bytes),
+    (forall k b, length b = 16%nat -> length (AES k b) = 16%nat) ->
+    (forall k b, wfb (AES k b)) ->
+    forall v id key c ad, length key = 64%nat ->
+      (forall p, daead_encrypt AES v id key p ad <> Ok c) -> daead_decrypt AES v id key c ad = Err.
+Proof. exact daead_rejects_non_encryptions. Qed.
+Print Assumptions C08_siv_rejects_everything_else.
+
+(* Checked slices: decryption never panics, whatever the key, ciphertext, AD;
+   inputs shorter than prefix + 16 and wrong key sizes are errors. *)
+Theorem C08_siv_decrypt_never_panics :
+  forall (AES : bytes -> bytes -> bytes),
+    (forall k b, length b = 16%nat -> length (AES k b) = 16%nat) ->
+    (forall k b, wfb (AES k b)) ->
+    forall v id key ct ad, daead_decrypt AES v id key ct ad <> Panic.
+Proof. exact daead_decrypt_no_panic. Qed.
+Print Assumptions C08_siv_decrypt_never_panics.
+
+Theorem C08_siv_short_ciphertext_is_error :
+  forall (AES : bytes -> bytes -> bytes),
+    (forall k b, length b = 16%nat -> length (AES k b) = 16%nat) ->
+    (forall k b, wfb (AES k b)) ->
+    forall v id key ct ad,
+      (length ct < length (output_prefix v id) + 16)%nat -> daead_decrypt AES v id key ct ad = Err.
+Proof. exact daead_decrypt_short. Qed.
+Print Assumptions C08_siv_short_ciphertext_is_error.
+
+Theorem C08_siv_wrong_key_size_is_error :
+  forall (AES : bytes -> bytes -> bytes) v id key ct ad,
+    length key <> 64%nat -> daead_decrypt AES v id key ct ad = Err.
+Proof. exact daead_badkey. Qed.
+Print Assumptions C08_siv_wrong_key_size_is_error.
+
+(* ===================== AES-KWP ===================== *)
+
+Theorem C08_kwp_wrapping_size :
+  forall n, wrappingSize n = (8 * ((n + 7) / 8) + 8)%nat.
+Proof. exact wrappingSize_formula. Qed.
+Print Assumptions C08_kwp_wrapping_size.
+
+(* W as coded (running uint32 counter XORed into bytes 4..7) is RFC 3394's W
+   with A = MSB64(B) xor t, t = n*j + i as a 64-bit big-endian value. *)
+Theorem C08_kwp_W_is_rfc3394 :
+  forall (E : bytes -> bytes),
+    (forall b, length b = 16%nat -> length (E b) = 16%nat) ->
+    forall A rs, length A = 8%nat -> Forall (fun r => length r = 8%nat) rs ->
+      6 * N.of_nat (length rs) < 2 ^ 32 ->
+      W_impl E A rs = W_rfc3394 E A rs.
+Proof. exact W_impl_rfc3394. Qed.
+Print Assumptions C08_kwp_W_is_rfc3394.
+
+(* Wrap = RFC 5649 (AIV A65959A6 || be32(len), zero padding, W) for every size 16..8192;
+   other sizes are refused. *)
+Theorem C08_kwp_wrap_is_rfc5649 :
+  forall (E : bytes -> bytes),
+    (forall b, length b = 16%nat -> length (E b) = 16%nat) ->
+    forall d, 16 <= N.of_nat (length d) <= 8192 -> kwp_wrap E d = Ok (wrap_rfc5649 E d).
+Proof. exact kwp_wrap_rfc5649. Qed.
+Print Assumptions C08_kwp_wrap_is_rfc5649.
+
+Theorem C08_kwp_wrap_size_limits :
+  forall (E : bytes -> bytes) d,
+    (N.of_nat (length d) < 16 \/ 8192 < N.of_nat (length d)) -> kwp_wrap E d = Err.
+Proof. exact kwp_wrap_size_limits. Qed.
+Print Assumptions C08_kwp_wrap_size_limits.
+
+Theorem C08_kwp_unwrap_inverts_wrap :
+  forall (E D : bytes -> bytes),
+    (forall b, length b = 16%nat -> length (E b) = 16%nat) ->
+    (forall b, length b = 16%nat -> length (D b) = 16%nat) ->
+    (forall b, length b = 16%nat -> D (E b) = b) ->
+    (forall b, length b = 16%nat -> E (D b) = b) ->
+    forall d, 16 <= N.of_nat (length d) <= 8192 ->
+      exists c, kwp_wrap E d = Ok c /\ kwp_unwrap D c = Ok d /\ length c = wrappingSize (length d).
+Proof. exact kwp_unwrap_wrap. Qed.
+Print Assumptions C08_kwp_unwrap_inverts_wrap.
+
+(* Exact acceptance for the sizes Wrap handles: c unwraps to d iff c = Wrap d. *)
+Theorem C08_kwp_exact_acceptance :
+  forall (E D : bytes -> bytes),
+    (forall b, length b = 16%nat -> length (E b) = 16%nat) ->
+    (forall b, length b = 16%nat -> length (D b) = 16%nat) ->
+    (forall b, length b = 16%nat -> D (E b) = b) ->
+    (forall b, length b = 16%nat -> E (D b) = b) ->
+    (forall b, wfb b -> wfb (D b)) ->
+    forall c d, wfb c -> 16 <= N.of_nat (length d) ->
+      (kwp_unwrap D c = Ok d <-> kwp_wrap E d = Ok c).
+Proof. exact kwp_exact_acceptance. Qed.
+Print Assumptions C08_kwp_exact_acceptance.
+
+(* The whole acceptance set of Unwrap: exactly the RFC 5649 wrappings of keys
+   of 9..8192 bytes (9..15 are accepted although Wrap refuses to make them). *)
+Theorem C08_kwp_unwrap_accepts_exactly_rfc5649 :
+  forall (E D : bytes -> bytes),
+    (forall b, length b = 16%nat -> length (E b) = 16%nat) ->
+    (forall b, length b = 16%nat -> length (D b) = 16%nat) ->
+    (forall b, length b = 16%nat -> D (E b) = b) ->
+    (forall b, length b = 16%nat -> E (D b) = b) ->
+    (forall b, wfb b -> wfb (D b)) ->
+    forall c d, wfb c ->
+      (kwp_unwrap D c = Ok d <-> (9 <= N.of_nat (length d) <= 8192 /\ c = wrap_rfc5649 E d)).
+Proof. exact kwp_unwrap_exact. Qed.
+Print Assumptions C08_kwp_unwrap_accepts_exactly_rfc5649.
+
+(* ... hence every corrupted wrapping is rejected unless it is itself a wrapping ... *)
+Theorem C08_kwp_rejects_everything_else :
+  forall (E D : bytes -> bytes),
+    (forall b, length b = 16%nat -> length (E b) = 16%nat) ->
+    (forall b, length b = 16%nat -> length (D b) = 16%nat) ->
+    (forall b, length b = 16%nat -> D (E b) = b) ->
+    (forall b, length b = 16%nat -> E (D b) = b) ->
+    (forall b, wfb b -> wfb (D b)) ->
+    forall c, wfb c ->
+      (forall d, 9 <= N.of_nat (length d) <= 8192 -> c <> wrap_rfc5649 E d) -> kwp_unwrap D c = Err.
+Proof. exact kwp_rejects_non_wrappings. Qed.
+Print Assumptions C08_kwp_rejects_everything_else.
+
+(* ... every mis-sized one is rejected outright, and nothing panics. *)
+Theorem C08_kwp_missized_is_error :
+  forall (D : bytes -> bytes) c,
+    (N.of_nat (length c) < 24 \/ 8200 < N.of_nat (length c) \/ (length c mod 8 <> 0)%nat) ->
+    kwp_unwrap D c = Err.
+Proof. exact kwp_unwrap_size_limits. Qed.
+Print Assumptions C08_kwp_missized_is_error.
+
+Theorem C08_kwp_unwrap_never_panics :
+  forall (E D : bytes -> bytes),
+    (forall b, length b = 16%nat -> length (E b) = 16%nat) ->
+    (forall b, length b = 16%nat -> length (D b) = 16%nat) ->
+    (forall b, length b = 16%nat -> D (E b) = b) ->
+    (forall b, length b = 16%nat -> E (D b) = b) ->
+    (forall b, wfb b -> wfb (D b)) ->
+    forall c, kwp_unwrap D c <> Panic.
+Proof. exact kwp_unwrap_no_panic. Qed.
+Print Assumptions C08_kwp_unwrap_never_panics.
+
+(* ===================== the premises are inhabited ===================== *)
+Definition toyAES (k b : bytes) : bytes := map (fun x => N.lxor (x mod 256) (hd 0 k mod 256)) b.
+Definition toyE (b : bytes) : bytes := rev b.
+
+Example C08_siv_premises_inhabited :
+  (forall k b, length b = 16%nat -> length (toyAES k b) = 16%nat) /\
+  (forall k b, wfb (toyAES k b)) /\
+  (let key := map N.of_nat (seq 1 64) in
+   let pt := [1; 2; 3; 4; 5; 6; 7; 8; 9; 10; 11; 12; 13; 14; 15; 16; 17; 18; 19; 20] in
+   let ad := [9; 9; 9] in
+   exists c, daead_encrypt toyAES VTink 16909060 key pt ad = Ok c /\ length c = 41%nat /\
+             daead_decrypt toyAES VTink 16909060 key c ad = Ok pt /\
+             daead_decrypt toyAES VTink 16909060 key c [9; 9] = Err /\
+             daead_decrypt toyAES VTink 16909060 key (firstn 20 c) ad = Err).
+Proof.
+  split; [|split].
+  - intros k b H. unfold toyAES. rewrite map_length. exact H.
+  - intros k b. unfold toyAES, wfb. apply Forall_forall. intros y Hy.
+    apply in_map_iff in Hy. destruct Hy as [x [<- _]].
+    apply lxor_lt_256; apply N.mod_lt; discriminate.
+  - eexists. vm_compute. repeat split; reflexivity.
+Qed.
+
+Example C08_kwp_premises_inhabited :
+  (forall b, length b = 16%nat -> length (toyE b) = 16%nat) /\
+  (forall b, length b = 16%nat -> toyE (toyE b) = b) /\
+  (forall b, wfb b -> wfb (toyE b)) /\
+  (let d := map N.of_nat (seq 100 17) in
+   exists c, kwp_wrap toyE d = Ok c /\ length c = 32%nat /\ kwp_unwrap toyE c = Ok d /\
+             kwp_unwrap toyE (firstn 24 c) = Err /\ kwp_unwrap toyE (c ++ zeros 8) = Err).
+Proof.
+  split; [|split; [|split]].
+  - intros b H. unfold toyE. rewrite rev_length. exact H.
+  - intros b _. apply rev_involutive.
+  - intros b H. apply Forall_rev. exact H.
+  - eexists. vm_compute. repeat split; reflexivity.
+Qed.
